@@ -459,6 +459,38 @@ func (x *Exec) evalSpecCall(st *State, e *ast.CallExpr) *Value {
 		t := x.eng.typeByName(name)
 		return x.convert(st, x.eval(st, e.Args[0]), t, e)
 	}
+	// contract-file predicate (macro)
+	if d, ok := x.eng.cf.Preds[name]; ok {
+		if len(e.Args) != len(d.Params) {
+			x.fail("spec: pred %s arity", name)
+			return x.constInt(0)
+		}
+		saved := st.names
+		nn := map[string]*Value{}
+		for k, v := range saved {
+			nn[k] = v
+		}
+		for i, a := range e.Args {
+			v := x.eval(st, a)
+			pt := x.eng.typeByName(d.Params[i].Type)
+			nn[d.Params[i].Name] = x.coerce(st, v, pt)
+		}
+		st.names = nn
+		r := x.eval(st, d.Body)
+		st.names = saved
+		return r
+	}
+	if name == "hashable" && len(e.Args) == 1 {
+		v := x.eval(st, e.Args[0])
+		var cs []*Term
+		for p, t := range v.L {
+			if p == "tag" || strings.HasSuffix(p, ".tag") {
+				x.useHashable = true
+				cs = append(cs, x.b.App("hashable", BoolSort, t))
+			}
+		}
+		return scalarV(boolT, x.b.And(cs...))
+	}
 	// contract-file UF
 	if d, ok := x.eng.cf.UFs[name]; ok {
 		var args []*Value
@@ -598,6 +630,25 @@ func (x *Exec) specLib(st *State, name string, e *ast.CallExpr) (*Value, bool) {
 		lo := x.b.IntConst(new(big.Int).Neg(new(big.Int).Lsh(big.NewInt(1), 63)))
 		hi := x.b.IntConst(new(big.Int).Sub(new(big.Int).Lsh(big.NewInt(1), 63), big.NewInt(1)))
 		return scalarV(types.Typ[types.Bool], x.b.Or(x.b.Lt(s, lo, true), x.b.Gt(s, hi, true))), true
+	case "reverse32", "onescount8", "onescount64":
+		v := x.eval(st, e.Args[0])
+		q := map[string]string{"reverse32": "math/bits.Reverse32", "onescount8": "math/bits.OnesCount8", "onescount64": "math/bits.OnesCount64"}[name]
+		var rt types.Type = types.Typ[types.Int]
+		at := types.Typ[types.Uint64]
+		if name == "reverse32" {
+			rt = types.Typ[types.Uint32]
+			at = types.Typ[types.Uint32]
+		} else if name == "onescount8" {
+			at = types.Typ[types.Uint8]
+		}
+		if v.L == nil {
+			v = x.convertConst(v, at)
+		}
+		sig := types.NewSignatureType(nil, nil, nil, types.NewTuple(types.NewVar(0, nil, "x", at)), types.NewTuple(types.NewVar(0, nil, "", rt)), false)
+		outs, ok := x.libCall(st, q, nil, []*Value{v}, sig, e)
+		if ok {
+			return outs[0], true
+		}
 	case "strlen":
 		v := x.eval(st, e.Args[0])
 		if v.L == nil {
